@@ -122,8 +122,8 @@ pub struct SerObs {
     pub t_roundtrip: Option<Result<Value, String>>,
     /// RON with `struct_names(true)`: (text of T, text of RefT, T read back from its own text)
     pub ron_named: Option<(Result<String, String>, Result<String, String>, Option<Result<Value, String>>)>,
-    /// the same value in container positions: (position, bytes of container<T>, of container<Inner>, of container<RefT>, container<T> read back)
-    pub nested: Vec<(Pos, Result<Vec<u8>, String>, Result<Vec<u8>, String>, Result<Vec<u8>, String>, Option<DeObs>)>,
+    /// the same value in container positions: (position, bytes of container<T>, of container<Inner>, of container<RefT>, container<T> read back, container<Inner> read back = the precondition)
+    pub nested: Vec<(Pos, Result<Vec<u8>, String>, Result<Vec<u8>, String>, Result<Vec<u8>, String>, Option<DeObs>, Option<Result<Vec<Value>, String>>)>,
 }
 
 #[derive(Clone, Debug, PartialEq)]
